@@ -38,6 +38,11 @@ CHECKS = {
   text="impl_iff: for all strings (lists of code points) and every dispatch branch with a FIX datatype (int, SeqNum/NumInGroup, DayOfMonth, the six float types, String/MultipleValueString, char, Boolean, Country/Currency/Exchange, UTCDateOnly/LocalMktDate, UTCTimestamp, UTCTimeOnly, MonthYear): accepted <-> (in the FIX 4.4 lexical space AND not in the explicit too-narrow set) OR explicit deviation (six fraction digits); Boolean, codes and data exact; enum_exact: enumerated fields accept exactly their enumerators; error_kind / rejection_is_fme: only FIXMessageError escapes, no hypothesis; length_accepts_everything: LENGTH is unvalidated (pinned finding). The narrow/deviation sets are the 8 open known findings (int() 4300-digit limit, float overflow, '=' in String [pinned], year 0000, second 60, six fraction digits [pinned], LENGTH [pinned]), each refuted for the full statement by a kernel-checked witness. Model compared with the implementation on all strings of length <= 3 (quick) / <= 4 (thorough) per datatype over a 16-character alphabet, all single-edit neighbours of 43 date/time exemplars, every enumerated field of both dictionaries (1.6M / 9.5M evaluations).",
   ref="DESIGN.md §6 C19",
   note=DEFAULT_NOTE + " Trusted: the SPEC recognisers (choices: '.5' and '5.' are floats; codes are 1..n ASCII alphanumerics; Length positive int; year 0000 is a leap year; MultipleValueString = String), the CPython models of int()/float()/re/_strptime (compared one level down with the interpreter), generated Unicode digit/space tables checked against the interpreter on all code points each run."),
+ "C17": dict(
+  technique="Lean 4 proof (inductive invariant over order + FIFO queues + reference exchange; local invariants over arbitrary call sequences; regex model; table facts by decide +kernel on the generated table) + step-by-step differential correspondence of the real FIXNewOrderSingle against the compiled model (random interleavings, arbitrary reports, exhaustive bounded interleavings)",
+  text="Theorems for all call sequences / all interleavings and all grid prices and quantities: status always an enum member; orig_clord_id only while a request is pending (or canceled) and no second request can be built meanwhile; can_cancel/can_replace imply the builder succeeds (replace: when price or qty changes); ClOrdIDs never repeat for any root and are root--k for every non-empty root not ending in --digits (clord_root characterised exactly: unchanged iff not of the chain form, chained ids always cut back to the root); convergence at every quiescent point (status, cum, leaves, price, qty equal the reference exchange's; finished exchange order => is_finished and requests refused), no report ever raises, at most one request in flight whose OrigClOrdID is the exchange's live id - for every interleaving that does not expire a suspended order or accept a replace on one (partial: those two races are pinned known findings, refuted for the full statement by kernel-evaluated witnesses that the harness replays on the real object).",
+  ref="DESIGN.md §6 C17",
+  note="Trusted: Lean kernel; the reference exchange as spec (exists twice, Lean and Python, compared report by report); hand model of the five methods, the regex and str(float)/str(int), tied by correspondence every run; float arithmetic only on the 1/8 grid below 2^46; FIXMessage/Enum/float() semantics assumed; translators for the transition table and the \\d code points."),
 }
 NOT_YET = "check under construction in this build round (model and theorems planned in DESIGN.md §6); not yet claimed"
 
